@@ -96,20 +96,22 @@ def gen_blob(r: random.Random, big=False):
 
 
 def gen_new_batch(r: random.Random, canonical_ms=True):
-    n = r.choice([1, 1, 2, 3, 5, 12])
+    n = r.choice([1, 1, 2, 3, 5, 12]) if r.random() > 0.05 else r.choice([63, 64, 65, 128])   # record count at zig-zag varint edges
     base_ts_ms = r.choice([0, 1, 999, 1001, 1700000000123, r.randrange(0, 4102444800000)])
     base_off = r.choice([0, 1, 2**31, 2**62, r.randrange(0, 2**40)])
     recs = []
     for k in range(n):
-        ts_ms = base_ts_ms + r.choice([0, 1, -1, 999, 1000, 86400000, r.randrange(-5000, 500000)])
+        ts_ms = base_ts_ms + r.choice([0, 1, -1, 999, 1000, 86400000, r.randrange(-5000, 500000), 63, 64, -64, -65, 8191, 8192, -8193])
         ts_ms = max(ts_ms, 0)
         us = ts_ms * 1000 + (0 if canonical_ms else r.choice([0, 1, 499, 500, 999]))
-        off = base_off + r.choice([k, k, k, r.randrange(0, 1000), -r.randrange(0, 3)])
+        off = base_off + r.choice([k, k, k, r.randrange(0, 1000), -r.randrange(0, 3), 63, 64, 8191, 8192, 2**20 - 1, 2**20])
         off = max(off, 0)
         recs.append({
             "attributes": r.choice([0, 0, 1, -128, 127]), "timestamp": us, "offset": off,
             "key": gen_blob(r), "value": gen_blob(r, big=r.random() < 0.01),
-            "headers": [(gen_blob(r), gen_blob(r)) for _ in range(r.choice([0, 0, 1, 3]))]})
+            "headers": ([(gen_blob(r), gen_blob(r)) for _ in range(r.choice([0, 0, 1, 3]))] if r.random() > 0.06 or n > 12 else
+                        # header COUNT at the zig-zag varint edges (64 needs two bytes), tiny headers
+                        [(r.choice([None, b"", b"k"]), r.choice([None, b"", b"v"])) for _ in range(r.choice([63, 64, 65, 127, 128, 200]))])})
     if r.random() < 0.15:
         # two instants one hour apart that share a wall-clock time in a DST zone (fold 0 / fold 1)
         zone, first = r.choice([("Europe/Berlin", 1698539400), ("America/New_York", 1699162200), ("Europe/London", 1729989000)])
